@@ -131,6 +131,8 @@ def trace_values(trace):
             data = repr(struct.unpack(">d", int(v["binary"], 2).to_bytes(8, "big"))[0])
         if data is None:
             continue
+        if isinstance(data, str) and re.match(r'^-?\d+[uUlL]+$', data):
+            data = re.sub(r'[uUlL]+$', '', data)
         fn = (st.get("sourceLocation") or {}).get("function", "")
         vals[lhs] = data
         vals["%s::%s" % (fn, lhs)] = data
@@ -180,8 +182,7 @@ def run_job(job, propdir, verbose=False):
             return res
         cur = "b.gb"
     base = ["cbmc", cur] + job.checks + ["--json-ui", "--trace"]
-    if job.object_bits or job.enforce or job.replace or job.loop_contracts:
-        base += ["--object-bits", str(job.object_bits or 12)]
+    base += ["--object-bits", str(job.object_bits or 12)]
     if job.unwind:
         base += ["--unwind", str(job.unwind), "--unwinding-assertions"]
     if job.unwindset:
@@ -285,6 +286,10 @@ def run_job(job, propdir, verbose=False):
             res.canary = (st == "FAILURE")
             continue
         res.obligations.append(ob)
+        if st == "FAILURE" and (".unwind." in nm or "recursion" in nm or "shim:" in desc):
+            res.status = "undecided"
+            res.reason = "bound of the run is insufficient (not a property violation): %s %s at %s" % (nm, desc, ob["location"])
+            return res
         if st == "FAILURE":
             failed = True
             res.traces[nm] = trace_values(r.get("trace"))
